@@ -17,6 +17,7 @@ EXPLANATION = (
     "statically from its literal, range loops and .update() calls and every (table, code) "
     "entry compared with the map; the SCU and SCP finality tests are shown to read those two "
     "sources. Exhaustive over a finite space."
+    " Third session: (docs-agreement) every status code the service-class documentation lists for a service is a key of the table that service's SCP consults (implementation-specific ranges excluded); (category-use) borrowed from C22's classification rule: the Get / Move SCP files a sub-operation's status under the counter of its category; (scp-finality) borrowed from C20."
 )
 
 
